@@ -35,7 +35,7 @@ for pid in ids:
         })
 try:
     commits = subprocess.check_output(["git", "-C", "/repo", "log", "--format=%h %s"], text=True).splitlines()
-    hooks = [c.split()[0] for c in commits if "verif hook" in c]
+    hooks = [c.split()[0] for c in commits if "verif hook" in c or c.split(" ", 1)[1].startswith("verif:")]
 except Exception:
     hooks = []
 m = {
